@@ -421,7 +421,7 @@ class Check:
             lines.append("VIOLATION property=%s replay=%s" % (self.prop, v["replay"]))
         if notfound:
             # one replay file naming every theorem / correspondence that no longer checks
-            data = {"broken": [{"kind": v["kind"], "name": v["name"], "detail": v["what"][-4000:]} for v in notfound],
+            data = {"broken": [{"kind": v["kind"], "name": v["name"], "detail": v["what"][:8000]} for v in notfound],
                     "concrete_inputs_found_in_same_run": [v["replay"] for v in found]}
             path = self._replay("broken-theorem-or-correspondence", data)
             if found:
